@@ -82,9 +82,26 @@ def _dest(d):
 def run_case(case):
     from dali.gear import sequences as gs
     from dali.gear import colour
-    if case["seq"] == "enums":
+    if case.get("seq") == "enums":
         return {"seq": "enums", "query": [[m.name, int(m.value)] for m in colour.QueryColourValueDTR],
                 "limit": [[m.name, int(m.value)] for m in colour.StoreColourTemperatureTcLimitDTR2], "ev": [], "case": case}
+    if "pair" in case:
+        # two sequences for two units on two buses, taking turns command by command: each is judged on its own
+        from .unitsim import drive_interleaved
+        parts = [_prepare(c) for c in case["pair"]]
+        res = drive_interleaved([(mk, ans) for _, mk, ans in parts], 50, case.get("burst", 1))
+        return [_finish(rec, ev, out, case) for (rec, _, _), (ev, out) in zip(parts, res)]
+    rec, mk, answer = _prepare(case)
+    try:
+        ev, out = drive(mk(), answer, 50)
+    except Exception as e:  # noqa
+        ev, out = [], {"exc": type(e).__name__, "ret": None}
+    return _finish(rec, ev, out, case)
+
+
+def _prepare(case):
+    from dali.gear import sequences as gs
+    from dali.gear import colour
     u = case["unit"]
     sim = Gear209Sim(u)
 
@@ -98,23 +115,24 @@ def run_case(case):
     rec = {"seq": seq, "unit": u, "value": case.get("value", 0) if isinstance(case.get("value", 0), int) else 0,
            "selector": case.get("selector", 0) if isinstance(case.get("selector", 0), int) else 0,
            "legal": case["legal"], "addressed": case.get("addressed", 1)}
-    try:
+
+    def mk():
         if seq == "set":
-            gen = gs.SetDT8ColourValueTc(_dest(case["dest"]), case["value"])
+            return gs.SetDT8ColourValueTc(_dest(case["dest"]), case["value"])
         elif seq == "limit":
-            gen = gs.SetDT8TcLimit(_dest(case["dest"]), case["selector"], case["value"])
-        else:
-            sel = case["selector"]
-            q = colour.QueryColourValueDTR(sel) if case["legal"] else sel
-            if isinstance(sel, str) and sel.startswith("@"):
-                from dali import command as _c, frame as _f
-                q = {"@limit:TcWarmest": colour.StoreColourTemperatureTcLimitDTR2.TcWarmest,
-                     "@limit:TcCoolest": colour.StoreColourTemperatureTcLimitDTR2.TcCoolest,
-                     "@resp:1": _c.NumericResponse(_f.BackwardFrame(1)), "@float:2.0": 2.0, "@bool": True}[sel]
-            gen = gs.QueryDT8ColourValue(_dest(case["dest"]), q)
-        ev, out = drive(gen, answer, 50)
-    except Exception as e:  # noqa
-        ev, out = [], {"exc": type(e).__name__, "ret": None}
+            return gs.SetDT8TcLimit(_dest(case["dest"]), case["selector"], case["value"])
+        sel = case["selector"]
+        q = colour.QueryColourValueDTR(sel) if case["legal"] else sel
+        if isinstance(sel, str) and sel.startswith("@"):
+            from dali import command as _c, frame as _f
+            q = {"@limit:TcWarmest": colour.StoreColourTemperatureTcLimitDTR2.TcWarmest,
+                 "@limit:TcCoolest": colour.StoreColourTemperatureTcLimitDTR2.TcCoolest,
+                 "@resp:1": _c.NumericResponse(_f.BackwardFrame(1)), "@float:2.0": 2.0, "@bool": True}[sel]
+        return gs.QueryDT8ColourValue(_dest(case["dest"]), q)
+    return rec, mk, answer
+
+
+def _finish(rec, ev, out, case):
     r = out["ret"]
     rec["ev"] = ev
     rec["out"] = {"exc": out["exc"], "ret": r if isinstance(r, int) and not isinstance(r, bool) and 0 <= r < 65536 else
@@ -161,6 +179,14 @@ def cases(tier, seed):
     # a response object, a float, a bool
     for bad in ("@limit:TcWarmest", "@limit:TcCoolest", "@resp:1", "@float:2.0", "@bool"):
         cs.append({"seq": "query", "dest": ("short", 5), "selector": bad, "legal": 0, "unit": _unit(rng)})
+    # two sequences running interleaved (two buses, one process): neither may see anything of the other
+    singles = [c for c in cs if c["legal"] and c["seq"] in ("set", "limit", "query")]
+    for k in range(200 if tier == "quick" else 5000):
+        a, b = rng.choice(singles), rng.choice(singles)
+        if k % 2:
+            a = rng.choice([c for c in singles[:400] if c["seq"] != "query"])
+            b = dict(rng.choice([c for c in singles[:400] if c["seq"] != "query"]), unit=_unit(rng))
+        cs.append({"pair": [dict(a, unit=dict(a["unit"])), dict(b, unit=dict(b["unit"]))], "burst": 1 + k % 3 % 2})
     return cs
 
 
@@ -174,7 +200,9 @@ def run(tier, seed, replay=None):
             cs = cases(tier, seed) + [{"seq": "enums"}]
         else:
             cs = [replay["case"]["case"]]
-        recs = core.pmap(run_case, cs, chunksize=256)
+        recs = []
+        for r_ in core.pmap(run_case, cs, chunksize=256):
+            recs.extend(r_ if isinstance(r_, list) else [r_])
         for ix, rec in enumerate(recs, 1):
             rec["id"] = ix
         slim = [{k: v for k, v in rec.items() if k != "case"} for rec in recs]
